@@ -44,7 +44,8 @@ type c13XR struct {
 }
 
 type c13Op struct {
-	Op    string    `json:"op"` // start stop isRunning startWatches stopWatches getWatches gc removeInformer
+	Op    string    `json:"op"` // start stop isRunning startWatches stopWatches getWatches gc removeInformer cacheRead
+	Via   string    `json:"via"` // cacheRead: get | list | forkind
 	N     int       `json:"n"`
 	Ws    []c13WidJ `json:"ws"`
 	Refs  []int     `json:"refs"` // legacy input form of Xrs: one live XR per kind plus one referencing all of them
@@ -162,7 +163,7 @@ func c13Cls(s c13Scn, obs c13Obs) string {
 		}
 	}
 	sort.Strings(best)
-	short := map[string]string{"start": "S", "stop": "P", "isRunning": "I", "startWatches": "W", "stopWatches": "X", "getWatches": "G", "gc": "C", "removeInformer": "R"}
+	short := map[string]string{"start": "S", "stop": "P", "isRunning": "I", "startWatches": "W", "stopWatches": "X", "getWatches": "G", "gc": "C", "removeInformer": "R", "cacheRead": "A"}
 	par := ""
 	for _, o := range best {
 		par += short[o]
@@ -222,15 +223,34 @@ func c13GenWids(r *Rng, kinds int, max int) []c13WidJ {
 	return ws
 }
 
-// c13GenKind draws a kind: mostly version v1 of one of `kinds` kinds, sometimes one of the kinds
-// that differ from it in one identity dimension only (another version, another API group, a Kind
-// it is a prefix of, the same Kind in another case: see c13GVK), each a different GVK.
+// c13Pool is the kind pool of the scenario being generated: for each base kind the form it
+// mostly appears in (plain, or one look-alike / awkwardly named form, see c13GVK), so that the
+// same odd kind is watched, re-watched, removed, referenced and read several times in one scenario.
+var c13Pool []int
+
+func c13NewPool(r *Rng, kinds int) {
+	c13Pool = make([]int, kinds)
+	for g := range c13Pool {
+		c13Pool[g] = g
+		if r.Chance(1, 3) {
+			c13Pool[g] = 1000*r.Range(1, c13Variants-1) + g
+		}
+	}
+}
+
+// c13GenKind draws a kind: mostly the scenario's form of one of `kinds` base kinds, sometimes the
+// plain form or another form that differs from it in one identity dimension only (another version,
+// another API group, a Kind it is a prefix of, another case, a name ending in "List", ...: see
+// c13GVK), each a different GVK.
 func c13GenKind(r *Rng, kinds int) int {
 	g := r.Intn(kinds)
-	if r.Chance(1, 6) {
+	switch {
+	case r.Chance(1, 8):
 		return 1000*r.Range(1, c13Variants-1) + g
+	case r.Chance(1, 8) || g >= len(c13Pool):
+		return g
 	}
-	return g
+	return c13Pool[g]
 }
 
 // c13GenXRs draws the XRs the collector lists: 0-4 XRs in every state a collector could be
@@ -287,8 +307,13 @@ func c13GenOp(r *Rng, names, kinds int) c13Op {
 		return c13Op{Op: "getWatches", N: n}
 	case 12, 13:
 		return c13GenGC(r, n, kinds)
-	default:
+	case 14:
 		return c13Op{Op: "removeInformer", G: c13GenKind(r, kinds)}
+	default:
+		if r.Chance(1, 2) {
+			return c13Op{Op: "removeInformer", G: c13GenKind(r, kinds)}
+		}
+		return c13Op{Op: "cacheRead", G: c13GenKind(r, kinds), Via: Pick(r, []string{"get", "list", "forkind"})}
 	}
 }
 
@@ -325,6 +350,7 @@ func c13GenRandom(r *Rng) c13Scn {
 		names = 3
 	}
 	kinds := r.Range(1, 3)
+	c13NewPool(r, kinds)
 	s := c13Scn{Names: names}
 	phase := 0
 	add := func(op c13Op) {
